@@ -224,6 +224,146 @@ func (m *Model) RunLayout(s *Sink, rule string) {
 				}
 			}
 		}
+		// the test and the registration are not interrupted by something that can itself register an insert: a parse
+		// function that is re-entered while the body of the insert is parsed registers the inner insert first, the
+		// outer one then overwrites it — and neither test has seen the other
+		{
+			registers := map[*ssa.Function]bool{} // functions of the parser from which a write of the insert table is reachable
+			for _, fn := range m.ModFns {
+				if fn.Blocks == nil || shortPkg(fnPkgPath(fn)) != "parser" {
+					continue
+				}
+				for _, b := range fn.Blocks {
+					for _, in := range b.Instrs {
+						if mu, isMu := in.(*ssa.MapUpdate); isMu && strings.HasSuffix(fieldPathOf(mu.Map), ".inserts") {
+							registers[fn] = true
+						}
+					}
+				}
+			}
+			for changed := true; changed; {
+				changed = false
+				for _, fn := range m.ModFns {
+					if fn.Blocks == nil || shortPkg(fnPkgPath(fn)) != "parser" || registers[fn] {
+						continue
+					}
+					if node := m.CG.Nodes[fn]; node != nil {
+						for _, e := range node.Out {
+							if registers[e.Callee.Func] {
+								registers[fn] = true
+								changed = true
+								break
+							}
+						}
+					}
+				}
+			}
+			k := 0
+			perFn := map[*ssa.Function]int{}
+			nInt := map[*ssa.Function]int{}
+			for _, fn := range m.ModFns {
+				if fn.Blocks == nil || shortPkg(fnPkgPath(fn)) != "parser" {
+					continue
+				}
+				ctx := m.Ctx(fn)
+				for _, b := range fn.Blocks {
+					for _, in := range b.Instrs {
+						mu, isMu := in.(*ssa.MapUpdate)
+						if !isMu || !strings.HasSuffix(fieldPathOf(mu.Map), ".inserts") {
+							continue
+						}
+						k++
+						// the duplicate tests of this function that dominate the registration
+						interrupted, interruptedBy := "", ""
+						cleanTest := false // some dominating test has nothing re-entrant between it and the registration
+						for _, tb := range fn.Blocks {
+							for _, ti := range tb.Instrs {
+								tc, isC := ti.(*ssa.Call)
+								if !isC || tc.Call.StaticCallee() == nil || !(tc.Call.StaticCallee() == cdi || looksUp(tc.Call.StaticCallee())) || !ctx.instrDominates(tc, mu) {
+									continue
+								}
+								before := interrupted
+								interrupted = ""
+								for _, cb := range fn.Blocks {
+									for _, ci := range cb.Instrs {
+										cc, isCC := ci.(*ssa.Call)
+										if !isCC || cc == tc {
+											continue
+										}
+										if !ctx.instrDominates(tc, cc) {
+											continue
+										}
+										// on a path to the registration (an `if hasBody` around the body keeps it from dominating)
+										onPath := ctx.instrDominates(cc, mu)
+										if !onPath && cc.Block() != mu.Block() {
+											seenB := map[*ssa.BasicBlock]bool{}
+											st := []*ssa.BasicBlock{cc.Block()}
+											for len(st) > 0 && !onPath {
+												x := st[len(st)-1]
+												st = st[:len(st)-1]
+												if seenB[x] {
+													continue
+												}
+												seenB[x] = true
+												for _, nx := range x.Succs {
+													if nx == mu.Block() {
+														onPath = true
+													}
+													st = append(st, nx)
+												}
+											}
+										}
+										if !onPath {
+											continue
+										}
+										may := false
+										if sc := cc.Call.StaticCallee(); sc != nil {
+											may = registers[sc]
+										} else if node := m.CG.Nodes[fn]; node != nil {
+											for _, e := range node.Out {
+												if e.Site == ssa.CallInstruction(cc) && registers[e.Callee.Func] {
+													may = true
+												}
+											}
+										}
+										if may && interrupted == "" {
+											interrupted = fmt.Sprintf("%s at %s", calleeName(&cc.Call), m.InstrPos(cc))
+											interruptedBy = calleeName(&cc.Call)
+											if sc := cc.Call.StaticCallee(); sc != nil {
+												interruptedBy = canonFnName(sc)
+											}
+										}
+									}
+								}
+								if interrupted == "" {
+									cleanTest = true
+								} else if before != "" {
+									interrupted = before
+								}
+							}
+						}
+						if cleanTest {
+							interrupted = ""
+						}
+						perFn[fn]++
+						key := fmt.Sprintf("%s|nothing that can register an insert runs between the duplicate test and the registration #%d", fnKey(fn), perFn[fn])
+						if interrupted != "" {
+							_ = interruptedBy
+							nInt[fn]++
+							key = fmt.Sprintf("%s|nothing that can register an insert runs between the duplicate test and the registration (re-entered)", fnKey(fn))
+							if nInt[fn] > 1 {
+								key += fmt.Sprintf(" #%d", nInt[fn])
+							}
+						}
+						if interrupted == "" {
+							s.OK(rule, key, m.InstrPos(mu), "no call between the test and this registration reaches a write of the insert table")
+						} else {
+							s.Violation(rule, key, m.InstrPos(mu), "between the duplicate test and this registration %s calls %s, from which the registration of another insert is reachable (the body of an insert is parsed by the statement parser): an insert of the same name nested in the body registers first and is then overwritten — two inserts with one name, no error", fnKey(fn), interrupted)
+						}
+					}
+				}
+			}
+		}
 		check(fnKey(pis)+"|two inserts with one name are an error", m.Pos(pis.Pos()), ok && n > 0,
 			"every registration of an insert is dominated by the false outcome of checkDuplicateInserts",
 			"an insert can be registered without the duplicate check: the second insert of a name silently replaces the first")
